@@ -38,7 +38,7 @@ CLAIMS.update({
    note="Trusted: the import graph is not rewritten during the walk; the callback cannot reach the visited set ('preserves' clause); import lists contain no nil modules.",
    ref="6/C10"),
  "C02": dict(
-   text="Partial (operator lowering in the code generator). The lowering functions VisitUnaryExpr, VisitBinaryExpr (arithmetic, durch, modulo, bitwise, shifts, comparisons, entweder-oder) and VisitTernaryExpr (zwischen) are executed symbolically as real code, once per tuple of operator and operand type classes (exhaustive case split), under trusted llir builder contracts that carry the LLVM type class of every value. Proved for every admissible tuple (admissibility and result type written from the language rules): no path reaches c.err (the 'Unerwarteter Fehler' panic), every builder call gets operands of matching IR type, and the result registers hold the descriptor and an IR value of exactly the type the checker assigns. Casts, text/list operators, assignment/argument/return contexts and linking are not yet under contract; the checker side (no diagnostic <=> admissible) is not yet proved.",
+   text="Partial (operator lowering in the code generator). The lowering functions VisitUnaryExpr, VisitBinaryExpr (arithmetic, durch, modulo, bitwise, shifts, comparisons, entweder-oder) and VisitTernaryExpr (zwischen) are executed symbolically as real code, once per tuple of operator and operand type classes (exhaustive case split), under trusted llir builder contracts that carry the LLVM type class of every value. Proved for every admissible tuple (admissibility and result type written from the language rules): no path reaches c.err (the 'Unerwarteter Fehler' panic), every builder call gets operands of matching IR type, and the result registers hold the descriptor and an IR value of exactly the type the checker assigns. Explicit conversions ('als') between the primitive classes and from Variable: one conversion table (package ast contracts) is the postcondition of the type checker's VisitCastExpr (diagnostic <=> not in the table) and the precondition of the code generator's VisitCastExpr, which is proved to yield the target class's descriptor and IR type with conversion instructions of the right widths for every (source, target) pair. Text/list operators, conversions to/from Text and lists, argument/return contexts and linking are not under contract.",
    note="Trusted: llir builder contracts (type classes per LangRef), the induction hypothesis on c.evaluate for sub-expressions (each other Visit* method yields the descriptor and IR type of the checker's type), the compiler's set-up facts wfCompiler (distinct descriptors, IR constants' types), commentNode frame.",
    ref="6/C02"),
  "C04": dict(
@@ -54,7 +54,7 @@ CLAIMS.update({
    note="Trusted: utf8 contracts; the sweep assumes nil-freedom of receivers/fields; WalkDir's documented behaviour (nil entry only with the root path).",
    ref="6/C03"),
  "C01": dict(
-   text="Fragment only (one necessary condition of the statement): signedness discipline of the operator lowering. With the LLVM type class of every IR value tracked by the builder contracts, it is proved for every admissible (operator, operand classes) tuple of the unary, binary-numeric and zwischen operators and of numeric assignment that a Byte (the only i8 class, unsigned) is never the operand of a sign-dependent instruction (sitofp, sext, sdiv, srem, signed icmp, fptosi to i8) and that the unsigned variants are used only on Bytes. This is value-independent, so it holds for every operand value. Everything else in C01 (precedence, short-circuit evaluation, loops, indexing, equality, output) is not decided by this check.",
+   text="Fragment only (one necessary condition of the statement): signedness discipline of the operator lowering. With the LLVM type class of every IR value tracked by the builder contracts, it is proved for every admissible (operator, operand classes) tuple of the unary, binary-numeric and zwischen operators and of numeric assignment that a Byte (the only i8 class, unsigned) is never the operand of a sign-dependent instruction (sitofp, sext, sdiv, srem, signed icmp, fptosi to i8) and that the unsigned variants are used only on Bytes. This is value-independent, so it holds for every operand value; the same discipline is proved for the explicit conversions between primitive classes (VisitCastExpr). Everything else in C01 (precedence, short-circuit evaluation, loops, indexing, equality, output) is not decided by this check.",
    note="Trusted: as for C02 (llir builder contracts, induction hypothesis on evaluate, wfCompiler).",
    ref="6/C01"),
  "C15": dict(
